@@ -33,6 +33,8 @@ CONF = {
     # slow on a cold machine; the quick tier is bounded by the number of shapes, not by the clock, so that every run
     # - warm or freshly restored - does the same work (the 468 shapes are all covered when the budget is widened)
     "C15": {"quick": (180, 120), "thorough": (420, 12000)},
+    # C12: one case = a probe in several fresh interpreters (one per hash seed); bounded by the number of probes
+    "C12": {"quick": (150, 24), "thorough": (420, 12000)},
 }
 
 TRUSTED_BASE = [
